@@ -150,7 +150,7 @@ fn props() -> Vec<Prop> {
         run: c19::run_case,
     }, Prop {
         id: "C20",
-        rule: "case = one batch of inputs for a child process (time limit, 6 GB address space, 64 MB stack), run in two build profiles; inputs: random bytes as Lark / JSON schema / regex / slice list / tokenizer.json, byte-level mutations of a corpus, adversarial nesting and sizes (deep parentheses, huge counts, multipleOf combinations, i64 extremes, $ref cycles, malformed byte-fallback names), valid corpus entries; each built engine then gets a seeded script of legal and illegal calls under default or tight limits; distinct non-trivial = distinct inputs that either built an engine or were rejected with an error",
+        rule: "lcm cases: coefficient/exponent pairs (boundary values of u32, exponents 0-13) through Decimal::checked_lcm vs the Lean model (tie of theorem lcm_no_overflow_or_error); fuzz cases: case = one batch of inputs for a child process (time limit, 6 GB address space, 64 MB stack), run in two build profiles; inputs: random bytes as Lark / JSON schema / regex / slice list / tokenizer.json, byte-level mutations of a corpus, adversarial nesting and sizes (deep parentheses, huge counts, multipleOf combinations, i64 extremes, $ref cycles, malformed byte-fallback names), valid corpus entries; each built engine then gets a seeded script of legal and illegal calls under default or tight limits; distinct non-trivial = distinct inputs that either built an engine or were rejected with an error",
         quick_cases: 16,
         thorough_cases: 400,
         gen: c20::gen_case,
